@@ -8,7 +8,7 @@ RULE = ("correspondence: generated worlds (area features, plumes; both coordinat
         "non-trivial = answered with values; distinct = distinct command lines. oracle: on the C++ library alone, batched vs stand-alone vs permuted vs repeated "
         "vs single-property entry points vs after-other-queries, compared bit for bit.")
 TRUSTED_BASE = ["history / other-world independence of the C++ (no hidden statics) is established by the correspondence and the oracle on sampled histories, not by a theorem"]
-ASSUMPTIONS = ["worlds without random models (C15 covers those)", "line features (slab, fault) are not yet inside the Lean model: for them only the implementation-level oracle applies"]
+ASSUMPTIONS = ["worlds without random models (C15 covers those)", "slab/fault models mass conserving, plate model, water content and random grains are not yet inside the Lean model (worlds using them are skipped by the correspondence and covered by the implementation-level oracle only)"]
 
 
 def fresh_answer(world_path, cmd):
@@ -21,7 +21,7 @@ def fresh_answer(world_path, cmd):
 
 def correspondence(seed, tier):
     n = budget(tier, 25, 400)
-    rs = [corr.run_corr(seed * 1000 + k, "C01_%d" % k, n, 25, {"with_random": False}) for k in range(budget(tier, 1, 3))]
+    rs = [corr.run_corr(seed * 1000 + k, "C01_%d" % k, n, 25, {"with_random": False, "with_lines": True}) for k in range(budget(tier, 1, 3))]
     res = summarize_corr(rs)
     # triage: a disagreement is a failing input of C01 itself if the library's answer inside the session (other worlds alive,
     # earlier queries made) differs from its answer to the same command in a fresh process
@@ -42,7 +42,7 @@ def oracle(seed, tier):
     rng = random.Random(seed * 7919 + 1)
     wdir = proto.workdir("C01_oracle")
     nworlds = budget(tier, 12, 150)
-    worlds = gen_worlds(rng, wdir, "o", nworlds, {"with_random": False})
+    worlds = gen_worlds(rng, wdir, "o", nworlds, {"with_random": False, "with_lines": True})
     lines, checks = [], []
     for wi, (path, w, g) in enumerate(worlds):
         lines.append("world w%d %s -" % (wi, path))
